@@ -24,7 +24,7 @@ def stateOk (c : Chart) (s : Nat) : Bool :=
   ((Large.st c s).typ != .compound || !(Large.st c s).completion.isEmpty)
 
 def DownOk (c : Chart) : Bool :=
-  (List.range c.states.size).all (stateOk c) && decide ((Large.st c 0).completion.Pairwise (· < ·))
+  (List.range c.states.size).all (stateOk c) && decide ((Large.st c 0).completion.Pairwise (· < ·)) && (Large.st c 0).typ == .compound
 
 theorem ancs_oor (c : Chart) (y : Nat) (h : ¬ y < c.states.size) : Large.ancs c y = [] := by
   have e : Large.ancs c y = Large.ancestors c c.states.size y := rfl
@@ -38,8 +38,8 @@ theorem ancs_oor (c : Chart) (y : Nat) (h : ¬ y < c.states.size) : Large.ancs c
 
 theorem dok_of_downOk {c : Chart} (h : DownOk c = true) : DOK c := by
   unfold DownOk at h
-  simp only [Bool.and_eq_true, List.all_eq_true, List.mem_range, decide_eq_true_eq] at h
-  obtain ⟨hall, hasc⟩ := h
+  simp only [Bool.and_eq_true, List.all_eq_true, List.mem_range, decide_eq_true_eq, beq_iff_eq] at h
+  obtain ⟨⟨hall, hasc⟩, hroot⟩ := h
   have hd : ∀ s, ¬ s < c.states.size → Large.st c s = default := fun s hs => st_oor c s hs
   have dcompl : (default : St).completion = [] := rfl
   have dtrans : (default : St).trans = [] := rfl
@@ -48,7 +48,7 @@ theorem dok_of_downOk {c : Chart} (h : DownOk c = true) : DOK c := by
   have dch : (default : St).children = [] := rfl
   -- the per-state facts, unpacked
   have ok : ∀ s, s < c.states.size → stateOk c s = true := hall
-  refine ⟨?_, ?_, ?_, ?_, ?_, ?_, ?_, ?_, hasc, ?_⟩
+  refine ⟨?_, ?_, ?_, ?_, ?_, ?_, ?_, ?_, hasc, ?_, hroot⟩
   · -- complGt
     intro s k hk
     by_cases hs : s < c.states.size
